@@ -153,6 +153,23 @@ def run_case(ctx, res, case, lines, post):
         except Exception as e:  # noqa: BLE001
             res.failures.append({'kind': 'predict-raised', 'input': {**case, 'mode': mode}, 'observed': repr(e)[:300]})
             continue
+        # the per-index interpolants evaluated through an executor whose tasks complete in REVERSE order of submission: each
+        # interpolant must still meet ITS OWN combination weight
+        if mode == 'train' and len(iset) >= 2:
+            from harness.c15 import ScheduledExecutor
+            try:
+                got_ex = comp.predict(X, index_set=mode, executor=ScheduledExecutor(lambda n_: list(reversed(range(n_)))))
+                for o in out_names:
+                    a_, b_ = np.asarray(got[o], dtype=float), np.asarray(got_ex[o], dtype=float)
+                    sc_ = max(1.0, float(np.nanmax(np.abs(a_)))) if np.any(np.isfinite(a_)) else 1.0
+                    if not np.allclose(a_, b_, rtol=0, atol=1e-11 * sc_, equal_nan=True):
+                        res.failures.append({'kind': 'surrogate-value-depends-on-the-completion-order-of-executor-tasks',
+                                             'input': {**case, 'mode': mode, 'history': [list(a) + list(b) for a, b in hist]},
+                                             'observed': b_.tolist(), 'expected': a_.tolist()})
+                res.hit('predict-through-reverse-completing-executor')
+            except Exception as e:  # noqa: BLE001
+                res.failures.append({'kind': 'predict-raised', 'input': {**case, 'mode': mode, 'executor': 'reverse completion'},
+                                     'observed': repr(e)[:300]})
         # the same points handed over in other array types (an integer sweep / single precision for the FIRST input, whose
         # values are chosen exactly representable): the surrogate is a function of the point, not of the array's dtype
         if nin >= 2 and mode == 'test':
